@@ -70,7 +70,8 @@ class IterDom:
 
 class LoopSpec:
     def __init__(self, inv=None, mode='inv', extra_mods=(), unroll=False,
-                 exit_assume=None, prepare=None, step=None):
+                 exit_assume=None, prepare=None, step=None, h5_fams=None):
+        self.h5_fams = h5_fams    # HDF5 name families the loop appends to
         self.prepare = prepare    # callable(ex, st): abstract lists before loop
         self.step = step          # callable(Vstart, Vend) -> [(name, formula)]
         self.inv = inv            # callable(V) -> list[(name, z3 bool)]
@@ -587,6 +588,9 @@ class Executor:
             c = st.cell(v)
             if isinstance(c, ObjRec):
                 return v
+            if type(c).__name__ == 'H5Group':
+                st.set_cell(v, self.havoc_value(st, c, hint))
+                return v
             return st.alloc(self.havoc_value(st, c, hint), hint)
         if isinstance(v, Sym):
             return fresh(v.k, hint)
@@ -608,10 +612,16 @@ class Executor:
             c = z3.Int(uid(hint + '_cnt'))
             st.assume(c >= 0)
             return FlatList(c, A.fresh_arr(st, v.flat.k, hint + '_flat'))
+        if type(v).__name__ == 'H5Group':
+            h = getattr(self.reg, 'h5_havoc', None)
+            if h is None:
+                raise OutsideSubset('havoc of an HDF5 group')
+            return h(self, st, v, hint)
         if isinstance(v, PyList):
             raise OutsideSubset('havoc of a concrete python list ({}) - give '
                                 'the loop an abstraction'.format(hint))
-        if v is None or isinstance(v, (str, Opaque, ClassVal, tuple)):
+        if v is None or isinstance(v, (str, Opaque, ClassVal, tuple,
+                                      LoopLocal)):
             return v
         raise OutsideSubset('havoc of {!r}'.format(v))
 
@@ -680,6 +690,7 @@ class Executor:
         if is_for:
             # loop targets are bound per iteration, no need to havoc
             pass
+        h.ghost['h5_havoc_fams'] = spec.h5_fams
         self.havoc(h, names, fields, ghosts, cells, self._fcells)
         kk = z3.Int(uid('k'))
         h.env[kname] = Sym(kk, 'int')
